@@ -190,6 +190,13 @@ func scanAll(rows *sql.Rows) (string, error) {
 	if err != nil {
 		return "", err
 	}
+	// the caller owns the slice it got: it renames the headers in place once it has read the result (whatever a
+	// statement or connection keeps of its column list must not be this array)
+	defer func() {
+		for i := range cols {
+			cols[i] = "\x00SCRIBBLED " + strings.ToUpper(cols[i])
+		}
+	}()
 	var out []string
 	for rows.Next() {
 		vals := make([]any, len(cols))
@@ -406,7 +413,8 @@ func c11Worker(ctx *rt.Ctx, job *rt.Job) []*rt.Violation {
 				for i, j := range idx {
 					seq[i] = pool[j]
 				}
-				if !run(c11Case{Kind: "prepared", Tree: t, Args: seq}) {
+				// (group-by lists of 0, 1 and 3 columns: a parsed list of 3 has spare capacity behind it)
+				if !run(c11Case{Kind: "prepared", Tree: t, GroupBy: [][]string{nil, {"g", "a", "b"}, {"g"}}[it%3], Args: seq}) {
 					return vs
 				}
 				if !run(c11Case{Kind: "query", Tree: t, GroupBy: []string{"g"}, Args: seq}) {
